@@ -251,3 +251,31 @@ Example skipkeys_snapshot_shows_hidden :
   wget s [107; 1] = ROk None /\ witer s [] [] = [] /\
   wget (wsnap s) [107; 1] = ROk (Some [9]) /\ witer (wsnap s) [] [] = [([107; 1], [9])].
 Proof. vm_compute. repeat split. Qed.
+
+(* ------------------------------------------------------------------ the view is the base minus the hidden keys;
+   after Flush the buffered writes are in it *)
+Lemma wview_hidden s : wview s = sm_filter (fun k => negb (hidden s k)) (wbase s).
+Proof.
+  induction s; cbn [wview wbase hidden]; auto.
+  - unfold sm_filter. induction m as [|[k v] t IH]; cbn; auto. f_equal; auto.
+  - rewrite IHs, sm_filter_filter. apply sm_filter_ext. intros k. rewrite negb_orb. apply andb_comm.
+Qed.
+
+Lemma wbw_hidden s ops k : hidden (wbase_write s ops) k = hidden s k.
+Proof. induction s; cbn; auto. rewrite IHs; auto. Qed.
+
+Theorem flush_shows_writes pend u :
+  is_null u = false -> all_empty u = true ->
+  wbase (l_flush (WBatched pend u)) = wsettled (WBatched pend u) /\
+  wpending (l_flush (WBatched pend u)) = [] /\
+  wview (l_flush (WBatched pend u)) =
+    sm_filter (fun k => negb (hidden u k)) (wsettled (WBatched pend u)).
+Proof.
+  intros NN AE. pose proof (all_empty_pending u AE) as PE.
+  assert (B : wbase (l_flush (WBatched pend u)) = wsettled (WBatched pend u)).
+  { cbn [l_flush wbase]. unfold wsettled. cbn [wbase wpending]. rewrite PE, app_nil_r. apply wbw_base; auto. }
+  split; [exact B|]. split.
+  - cbn [l_flush wpending]. rewrite wbw_pending. exact PE.
+  - rewrite wview_hidden, B. apply sm_filter_ext. intros k. cbn [l_flush hidden].
+    rewrite wbw_hidden. reflexivity.
+Qed.
